@@ -45,7 +45,32 @@ def run_check(prop: str, tier: str, replay: str | None) -> int:
         return 2
 
 
+class _SafeOut:
+    """stdout that ignores a closed pipe (e.g. `| head`), so that the exit code still reports the verdict."""
+
+    def __init__(self, f):  # type: ignore[no-untyped-def]
+        self.f = f
+        self.dead = False
+
+    def write(self, s):  # type: ignore[no-untyped-def]
+        if self.dead:
+            return len(s)
+        try:
+            return self.f.write(s)
+        except BrokenPipeError:
+            self.dead = True
+            return len(s)
+
+    def flush(self):  # type: ignore[no-untyped-def]
+        if not self.dead:
+            try:
+                self.f.flush()
+            except BrokenPipeError:
+                self.dead = True
+
+
 def main(argv: list[str]) -> int:
+    sys.stdout = _SafeOut(sys.stdout)  # type: ignore[assignment]
     ap = argparse.ArgumentParser(prog="esv")
     sub = ap.add_subparsers(dest="cmd", required=True)
     c = sub.add_parser("check")
